@@ -24,7 +24,7 @@ from nflows.utils import torchutils
 
 PROPERTY = "C15"
 RULE = (
-    "(1) every transform subject x config (<=1 deviation; thorough <=2) and every distribution/flow x config, x history before saving {fresh, data-dependent init (one training "
+    "(1) every transform subject x config (<=2 deviations; thorough <=3) and every distribution/flow x config, x history before saving {fresh, data-dependent init (one training "
     "forward), 2 training steps, eval-mode calls (cache on where available)}: A built under torch seed a with pattern parameters, B under seed b as constructed; (2) seam enumeration: "
     "RandomPermutation(n<=3) under ALL pairs of permutations, OneByOneConvolution(3) under all pairs, masked autoregressive transform with random masks (F=3,H=3) under all pairs of "
     "sorted degree draws, couplings built from create_random_binary_mask(3/4) under all pairs of multinomial answers. Non-trivial = A and B compute different functions before loading."
@@ -39,7 +39,7 @@ HISTS = ("fresh", "ddinit", "train2", "evalcalls")
 
 
 def bounds(tier, seed):
-    return {"histories": list(HISTS), "config_deviations": 1 if tier == "quick" else 2, "seam_pairs": "all"}
+    return {"histories": list(HISTS), "config_deviations": 2 if tier == "quick" else 3, "seam_pairs": "all"}
 
 
 def run_hist(m, hist, call_train):
@@ -310,7 +310,7 @@ def seam_case(case):
 
 
 def units(tier, seed):
-    k = 1 if tier == "quick" else 2
+    k = 2 if tier == "quick" else 3
     us = [("t", name, cfg, seed) for name, s in C.SUBJECTS.items() for cfg in C.enum_configs(s, k)]
     us += [("d", name, cfg, seed) for name, d in DC.DSUBJECTS.items() if d.torch_tensor_api for cfg in DC.enum_configs(d, k)]
     us.append(("seam",))
